@@ -23,10 +23,20 @@ CS = dict(
     unwind=90, unwindset={"vf_harness:/for \\(i = 0; i < SSL_MAX_DISABLED/": 34, "vf_harness:/for \\(i = 0; i < 8/": 10, "table_index:/./": 90},
     cases=[dict(name="op%d" % o, defs={"VF_OP": o}) for o in (0, 1, 2)],
 )
-HARNESSES = [VER("srv_legacy_version", 1), VER("srv_supported_versions", 2), VER("cli_version", 3), CS]
+SCSV = dict(
+    name="fallback_scsv", src="fallback_scsv.c", checks=[],
+    units=["matrixssl/hsNegotiateVersion.c"],
+    functions=["parseClientHello", "checkClientHelloVersion", "psVerGetHighestTls", "psVerFromEncodingMajMin"],
+    sources=["matrixssl/hsDecode.c", "matrixssl/hsNegotiateVersion.c"],
+    assumptions=["fallback_scsv: a TLS ClientHello (client_version 1.0..1.2, empty session id, 3 arbitrary cipher suites) that ends after the suite list - the harness cuts parseClientHello there (callees behind the cut have no body; CBMC reports any call to them); server enabled set = any non-empty subset of {TLS1.0..1.3} with its priority list"],
+    undefined_ok="*",
+    unwind=12, unwindset={"vf_bytes:/./": 50, "memcpy.0": 40, "psVerGetHighest:/./": 70},
+    cases=[dict(name="tls", defs={})],
+)
+HARNESSES = [SCSV, VER("srv_legacy_version", 1), VER("srv_supported_versions", 2), VER("cli_version", 3), CS]
 PROPERTY = dict(level='model_checking',
-    claim="Server and client version selection: the negotiated version is enabled by us, not above the client's, in the client's family, the first acceptable one in our priority order; with supported_versions it is in the intersection, TLS 1.3 only if a TLS 1.3 suite was offered and always when both have it; a <1.3 ServerHello carrying a downgrade sentinel is refused. sslGetCipherSpec never returns a suite that is on the session's disabled list (any list contents), globally disabled, or not allowed for the enabled/negotiated versions.",
+    claim="Server and client version selection: the negotiated version is enabled by us, not above the client's, in the client's family, the first acceptable one in our priority order; with supported_versions it is in the intersection, TLS 1.3 only if a TLS 1.3 suite was offered and always when both have it; a <1.3 ServerHello carrying a downgrade sentinel is refused. sslGetCipherSpec never returns a suite that is on the session's disabled list (any list contents), globally disabled, or not allowed for the enabled/negotiated versions. A ClientHello with TLS_FALLBACK_SCSV and a client_version below the highest enabled TLS version (1.3 included) is refused with inappropriate_fallback.",
     bounds='every non-empty subset (<=3 members) of one version family as the enabled set, any priority order; peer lists <= 3 versions',
-    outside='the choice of the server among the offered suites, group and signature-algorithm selection, fallback SCSV, extended master secret',
+    outside='the choice of the server among the offered suites, group and signature-algorithm selection, extended master secret',
     explanation="Server and client version selection: the negotiated version is enabled by us, not above the client's, in the client's family, the first acceptable one in our priority order; with supported_versions it is in the intersection, TLS 1.3 only if a TLS 1.3 suite was offered and always when both have it; a <1.3 ServerHello carrying a downgrade sentinel is refused.",
     assumptions=[])
